@@ -15,10 +15,10 @@ from . import fingerprint as F
 from .monitors import M, MonitorBug, InjectedFault
 
 PREFIXES_BY_BASE = {
-    'L': ['n', 'u', 'µ', 'm', 'c', 'd', '', 'da', 'k'],
-    'g': ['n', 'u', 'µ', 'm', 'c', 'd', '', 'da', 'k'],
-    'mol': ['n', 'u', 'µ', 'm', 'c', 'd', '', 'da', 'k'],
-    'U': [''],
+    'L': ['p', 'n', 'u', 'µ', 'm', 'c', 'd', '', 'da', 'k'],
+    'g': ['p', 'n', 'u', 'µ', 'm', 'c', 'd', '', 'da', 'k'],
+    'mol': ['p', 'n', 'u', 'µ', 'm', 'c', 'd', '', 'da', 'k'],
+    'U': ['', '', 'm', 'k', 'u', 'da', 'c'],
 }
 
 
